@@ -85,6 +85,7 @@ def make_plan(tree, seed, i, tier="quick"):
         # st_blksize of whatever fd 1 is: CPython sizes its BufferedWriter from it (4096 for pipes
         # and ext4 files; larger on some network / copy-on-write filesystems)
         "stdout_bufsize": rng.choice((4096, 4096, 8192, 65536, 1048576)),
+        "crlf": rng.random() < 0.12,
     }
     if rng.random() < 0.25:
         env["extra_entries"][UNITS_DIR] = rng.sample(STRAY, rng.choice((1, 2, 3)))
@@ -152,7 +153,7 @@ def faulty_variants(plan, seed, m):
         else:
             n = rng.choice((1, 1, 1, 2, 3))
             for _ in range(n):
-                kinds = ["open", "read", "write", "write", "git"]
+                kinds = ["open", "read", "write", "write", "git", "interrupt", "memerror"]
                 if uses_listdir:
                     kinds.append("listdir")
                 k = rng.choice(kinds)
@@ -164,6 +165,8 @@ def faulty_variants(plan, seed, m):
                     faults.append({"op": "read", "nth": nth, "permille": rng.choice((0, 500, 999, rng.randrange(1000))), "errno": "EIO"})
                 elif k == "write":
                     faults.append(_write_fault(rng, mode))
+                elif k in ("interrupt", "memerror"):
+                    faults.append({"op": k, "permille": rng.choice((1, 500, 999, rng.randrange(1000), rng.randrange(1000)))})
                 elif k == "listdir":
                     faults.append({"op": "listdir", "nth": rng.randrange(4), "errno": rng.choice(("EACCES", "ENOENT", "EIO", "ENOTDIR"))})
                 else:
